@@ -182,6 +182,56 @@ func VH20c_duration() {
 	verif.Reach("duration")
 }
 
+// VH20c_duration_sym: the option text is a string of N arbitrary bytes (solver
+// variables). Reference: a bare decimal integer (optional sign, digits only)
+// means that many seconds; anything else is whatever time.ParseDuration makes
+// of it (value or error).
+func VH20c_duration_sym() {
+	lab := "C20/duration-sym"
+	n := verif.Choice("len", verif.Param("N", 3)+1)
+	b := verif.Bytes("txt", n)
+	for i := 0; i < n; i++ {
+		// stated bound: no fractional part (time.ParseDuration goes through float64 for fractions; the
+		// fall-back is the same library call on both sides of the comparison anyway)
+		verif.Assume(b[i] != '.')
+	}
+	var d Duration
+	err := d.UnmarshalText(append([]byte{}, b...))
+	// reference: decimal syntax check written here, independent of strconv
+	i := 0
+	neg := false
+	if n > 0 && (b[0] == '+' || b[0] == '-') {
+		neg = b[0] == '-'
+		i = 1
+	}
+	isInt := i < n
+	var val int64
+	for ; i < n; i++ {
+		if b[i] < '0' || b[i] > '9' {
+			isInt = false
+			break
+		}
+		val = val*10 + int64(b[i]-'0')
+	}
+	if isInt {
+		verif.Reach("bare-integer")
+		if neg {
+			val = -val
+		}
+		verif.Assert(err == nil, lab+"/bare-decimal-integer-rejected")
+		if err == nil {
+			verif.Assert(time.Duration(d) == time.Duration(val)*time.Second, lab+"/bare-integer-is-not-that-many-seconds")
+		}
+		return
+	}
+	d2, e2 := time.ParseDuration(string(b))
+	verif.Assert((err == nil) == (e2 == nil), lab+"/accepts-or-rejects-differently-from-ParseDuration")
+	if err == nil && e2 == nil {
+		verif.Reach("unit-duration")
+		verif.Assert(time.Duration(d) == d2, lab+"/value-differs-from-ParseDuration")
+	}
+}
+
 type stubSock struct {
 	info   mangos.ProtocolInfo
 	sent   [][]byte
